@@ -17,6 +17,9 @@ MC_AsIs == {"keys-by-ds-only", "any-signer", "ns-finds-cut"}
 \* the AsIs configuration: two faults (the NS rule needs two) on two worlds
 MC_WorldsAsIs == {wd \in WorldsOfDepth(3, {1}, {{1}}) :
                      /\ wd.signed = <<TRUE, TRUE, TRUE>> /\ wd.link[2] = "ds" /\ wd.link[3] \in {"ds", "nods"}}
+\* two faults: depth 2 and 3 under the root anchor only (the extra anchor is covered with one fault
+\* here and with two faults by the generator)
+MC_WorldsTwo == WorldsOfDepth(2, {1}, {{1}}) \cup WorldsOfDepth(3, {1}, {{1}})
 MC_WorldsDeep == WorldsOfDepth(4, {1}, {{1}, {1, 3}})
 
 MC_Queries == QueryKinds
